@@ -351,15 +351,47 @@ def blocking_corr(seed, tier):
     return res
 
 
-def blocking_oracle(seed, tier):
-    """No acquirer stays blocked for ever when every issued token is eventually released."""
-    res = OracleResult('C12')
+def window_used(events):
+    """Reference computation from the C12 statement: after each granted acquire, the sum over tags
+    of the tokens from the lowest unreleased one up to and including the newest.  Returns the
+    maximum and the event index where it was reached."""
+    issued, held = {}, {}
+    worst, at = 0, None
+    for k, (_st, lab, out) in enumerate(events):
+        w = lab.split()
+        if w[1] in ('acq', 'wake') and out.startswith('token'):
+            tag, tok = int(w[3]), int(out.split()[1])
+            issued[tag] = max(issued.get(tag, 0), tok + 1)
+            held.setdefault(tag, set()).add(tok)
+            used = sum(issued[t] - (min(held[t]) if held.get(t) else issued[t]) for t in issued)
+            if used > worst:
+                worst, at = used, k
+        elif w[1] == 'rel':
+            held.get(int(w[2]), set()).discard(int(w[3]))
+    return worst, at
+
+
+def blocking_oracle_c11(seed, tier):
+    return blocking_oracle(seed, tier, prop='C11')
+
+
+def blocking_oracle(seed, tier, prop='C12'):
+    """No acquirer stays blocked for ever when every issued token is eventually released, and the
+    window (tokens from the lowest unreleased to the newest, summed over tags) never exceeds the
+    configured count, whoever is woken or barges in."""
+    res = OracleResult(prop)
     rng = rng_for(seed, 'sema-blocking-oracle')
     for i in range(150 if tier == 'quick' else 3000):
         cap, plans = _blocking_plans(rng)
         mode = ['uniform', 'sticky', 'pct'][i % 3]
         events, fail, sch, sem = blocking_run(rng.randrange(1 << 30), cap, plans, mode)
         res.evaluations += 1
+        worst, at = window_used(events)
+        if worst > cap:
+            res.violation('window-exceeded',
+                          {'cap': cap, 'threads_tags': plans, 'mode': mode, 'schedule': sch.choices[:300],
+                           'trace': [(l, o) for _, l, o in events[:at + 1]]},
+                          'SlidingWindowSemaphore(%d): %d tokens between the lowest unreleased and the newest' % (cap, worst))
         if fail is not None:
             res.violation('acquirer-blocked-for-ever',
                           {'cap': cap, 'threads_tags': plans, 'mode': mode, 'schedule': sch.choices[:300],
